@@ -915,6 +915,9 @@ def d_range_index(s):
     return None
 
 
+MAX_CONST_CAP = 1024   # elements; a constant clamp above this is not taken as a bound on memory
+
+
 def returns_min(body):
     """the function returns core::cmp::min(..) / Ord::min(..) of its inputs"""
     m = body.mir
@@ -945,8 +948,20 @@ def d_alloc_untainted(s):
         return "D9 constant size %s" % e[1]
     if len_of(e) is not None or (e[0] == "call" and (e[1].endswith("::len") or e[1].endswith("::count") or e[1].endswith("size_hint"))):
         return "D9 size is the length of data already in memory"
-    if e[0] == "call" and e[1].endswith("::min"):
-        return "D9 size is clamped by min()"
+    if e[0] == "call" and e[1].endswith("::min") and len(e[2]) == 2:
+        # the clamp must come from the input actually held (a length of in-memory data), or be a small constant: a large constant
+        # cap (`n.min(u16::MAX)`) still lets a few received bytes reserve megabytes
+        for x in e[2]:
+            x0 = E.strip_casts(x)
+            if len_of(x0) is not None or (x0[0] == "call" and (x0[1].endswith("::len") or x0[1].endswith("::count"))):
+                return "D9 size is clamped by min() with the length of data already in memory"
+            if x0[0] == "bin" and any(len_of(E.strip_casts(y)) is not None or (E.strip_casts(y)[0] == "call" and E.strip_casts(y)[1].endswith("::len")) for y in (x0[2], x0[3])):
+                return "D9 size is clamped by min() with a bound computed from in-memory lengths"
+            if x0[0] == "call" and x0[1].split("::")[-1] in ("saturating_sub", "checked_sub", "wrapping_sub") and any(
+                    len_of(E.strip_casts(y)) is not None or (E.strip_casts(y)[0] == "call" and E.strip_casts(y)[1].endswith("::len")) for y in x0[2]):
+                return "D9 size is clamped by min() with the bytes left"
+            if x0[0] == "const" and isinstance(x0[1], int) and 0 <= x0[1] <= MAX_CONST_CAP:
+                return "D9 size is clamped by min() with the small constant %d" % x0[1]
     if e[0] == "call" and not e[4] and S_FX[0] is not None:
         ct = fc.eb.terms.get(e[3])
         if ct is not None and not ct.callee.indirect and ct.callee.res_id in S_FX[0].bodies and returns_min(S_FX[0].bodies[ct.callee.res_id]):
